@@ -12,7 +12,7 @@ Theorem C01_round_winner_tested :
   forall (g : cfg) (cands : list cand) (sch : sched) (x : xst) (w : nat),
   r_win _ (cround g cands sch x) = Some w ->
   c_res (cand_at cands w) = OK /\ c_exit (cand_at cands w) = 0%Z /\ c_timeout (cand_at cands w) = false /\
-  c_changed (cand_at cands w) = true /\ too_large g (cand_at cands w) = false.
+  c_changed (cand_at cands w) = true /\ too_large g (cand_at cands w) = false /\ c_norun (cand_at cands w) = false.
 Proof. exact cround_win_success. Qed.
 
 (* One pass run, any number of files, cache on or off, any pass functions (growing, neutral,
